@@ -31,6 +31,67 @@ def validDate (t : TimeF) : Bool :=
 
 def atype! (s : String) : AssetType := if s = "2" then .alias else .name
 
+def int! (s : String) : Int :=
+  if s.startsWith "-" then -((nat! (s.drop 1).toString : Nat) : Int) else ((nat! s : Nat) : Int)
+
+def bool! (s : String) : Bool := s = "1"
+
+/-- comma separated hex list; "-" = empty list -/
+def hexList! (s : String) : List Bytes := if s = "-" then [] else (s.splitOn ",").map hex!
+
+/-- the hub's address verifier (app/params/config.go): account addresses are 20 or 32 bytes; the real
+    key builders decode the owner from bech32 and fail otherwise -/
+def okOwner (a : Bytes) : Bool := a.length == 20 || a.length == 32
+
+def inO (rg : Bytes × Option Bytes) (k : Bytes) : String := toString (inRangeO rg.1 rg.2 k)
+
+/-- the lockup scans of iterator.go: bounds from the first group of tokens, one stored entry from the second -/
+def lkscan (f : List String) : String :=
+  match f with
+  | "matured" :: y :: mo :: d :: h :: mi :: s :: ns :: "|" :: rest =>
+      let T := timeF! [y, mo, d, h, mi, s, ns]
+      let t := timeF! (rest.take 7)
+      let id := nat! ((rest.drop 7).headD "0")
+      if validDate T && validDate t then
+        inO (iterBeforeTime (lkFamilyPrefix true 11 []) T) (lockRefStoreKey true (combineKeys [[11], lkTimeKey t]) id)
+      else "invalid-date"
+  | "accbefore" :: a :: y :: mo :: d :: h :: mi :: s :: ns :: "|" :: b :: rest =>
+      let T := timeF! [y, mo, d, h, mi, s, ns]
+      let t := timeF! (rest.take 7)
+      let id := nat! ((rest.drop 7).headD "0")
+      if !okOwner (hex! b) then "err" else
+      if validDate T && validDate t then
+        inO (iterBeforeTime (lkFamilyPrefix true 12 [hex! a]) T)
+          (lockRefStoreKey true (combineKeys [[12], hex! b, lkTimeKey t]) id)
+      else "invalid-date"
+  | "denafter" :: a :: y :: mo :: d :: h :: mi :: s :: ns :: "|" :: b :: rest =>
+      let T := timeF! [y, mo, d, h, mi, s, ns]
+      let t := timeF! (rest.take 7)
+      let id := nat! ((rest.drop 7).headD "0")
+      if validDate T && validDate t then
+        inO (iterAfterTime (lkFamilyPrefix true 13 [hex! a]) T)
+          (lockRefStoreKey true (combineKeys [[13], hex! b, lkTimeKey t]) id)
+      else "invalid-date"
+  | ["denlonger", u, a, d, "|", b, d', id] =>
+      inO (iterLongerDuration (lkFamilyPrefix (bool! u) 9 [hex! a]) (int! d))
+        (lockRefStoreKey (bool! u) (combineKeys [[9], hex! b, lkDurationKey (int! d')]) (nat! id))
+  | ["accall", u, a, "|", b, d', id] =>
+      if !okOwner (hex! b) then "err" else
+      inO (iterPrefix (lkFamilyPrefix (bool! u) 8 [hex! a]))
+        (lockRefStoreKey (bool! u) (combineKeys [[8], hex! b, lkDurationKey (int! d')]) (nat! id))
+  | ["accdur", u, a, d, "|", b, d', id] =>
+      if !okOwner (hex! b) then "err" else
+      inO (iterDuration (lkFamilyPrefix (bool! u) 8 [hex! a]) (int! d))
+        (lockRefStoreKey (bool! u) (combineKeys [[8], hex! b, lkDurationKey (int! d')]) (nat! id))
+  | ["accshorter", u, a, d, "|", b, d', id] =>
+      if !okOwner (hex! b) then "err" else
+      inO (iterShorterDuration (lkFamilyPrefix (bool! u) 8 [hex! a]) (int! d))
+        (lockRefStoreKey (bool! u) (combineKeys [[8], hex! b, lkDurationKey (int! d')]) (nat! id))
+  | ["denall", u, a, "|", b, d', id] =>
+      inO (iterPrefix (lkFamilyPrefix (bool! u) 9 [hex! a]))
+        (lockRefStoreKey (bool! u) (combineKeys [[9], hex! b, lkDurationKey (int! d')]) (nat! id))
+  | _ => "bad-op"
+
 def optHex (o : Option Bytes) : String := match o with | none => "nil" | some b => toHexD b
 
 def cmp (a b : Bytes) : String :=
@@ -108,6 +169,18 @@ def step (_ : Unit) (f : List String) : Unit × String :=
   | ["irofrom", d] => optHex (rollappIDFromIRODenom (hex! d))
   | ["plankey", n] => toHexD (Gen.Keys.planKey (decStr (nat! n)))
   | ["planrkey", r] => toHexD (Gen.Keys.plansByRollappKey (hex! r))
+  | "lkcomb" :: parts => toHexD (combineKeys (parts.map hex!))
+  | "lktime" :: rest =>
+      let t := timeF! rest
+      if validDate t then toHexD (lkTimeKey t) else "invalid-date"
+  | ["lkdur", d] => toHexD (lkDurationKey (int! d))
+  | "lkrefs" :: u :: owner :: dur :: y :: mo :: d :: h :: mi :: sc :: ns :: dns :: id :: [] =>
+      let t := timeF! [y, mo, d, h, mi, sc, ns]
+      let l : LockK := ⟨hex! owner, int! dur, t, hexList! dns⟩
+      if !validDate t then "invalid-date" else if !okOwner l.owner then "err" else
+        let ks := if bool! u then lockRefKeys l else durationLockRefKeys l
+        ",".intercalate (ks.map fun k => toHexD (lockRefStoreKey (bool! u) k (nat! id)))
+  | "lkscan" :: rest => lkscan rest
   | _ => "bad-op")
 
 def drv : Drv := { σ := Unit, init := (), step := step }
